@@ -8,6 +8,7 @@ import (
 )
 
 func (rt *runtime) cmplEvaluateNodeStatement(node nodeStatement) Value {
+	rt.verifStep(0, node)
 	// Allow interpreter interruption
 	// If the Interrupt channel is nil, then
 	// we avoid runtime.Gosched() overhead (if any)
@@ -142,6 +143,7 @@ func (rt *runtime) cmplEvaluateNodeDoWhileStatement(node *nodeDoWhileStatement) 
 	result := emptyValue
 resultBreak:
 	for {
+		rt.verifStep(4, node)
 		for _, node := range node.body {
 			value := rt.cmplEvaluateNodeStatement(node)
 			switch value.kind {
@@ -190,6 +192,7 @@ func (rt *runtime) cmplEvaluateNodeForInStatement(node *nodeForInStatement) Valu
 	for obj != nil {
 		enumerateValue := emptyValue
 		obj.enumerate(false, func(name string) bool {
+			rt.verifStep(5, node)
 			into := rt.cmplEvaluateNodeExpression(into)
 			// In the case of: for (var abc in def) ...
 			if into.reference() == nil {
@@ -247,6 +250,7 @@ func (rt *runtime) cmplEvaluateNodeForStatement(node *nodeForStatement) Value {
 	result := emptyValue
 resultBreak:
 	for {
+		rt.verifStep(2, node)
 		if test != nil {
 			testResult := rt.cmplEvaluateNodeExpression(test)
 			testResultValue := testResult.resolve()
@@ -390,6 +394,7 @@ func (rt *runtime) cmplEvaluateModeWhileStatement(node *nodeWhileStatement) Valu
 	result := emptyValue
 resultBreakContinue:
 	for {
+		rt.verifStep(3, node)
 		if !rt.cmplEvaluateNodeExpression(test).resolve().bool() {
 			// Stahp: while (false) ...
 			break
